@@ -1,0 +1,14 @@
+//go:build verif
+
+package agentstorage
+
+// VerifPoint, when set, is called at the scheduling points of WritePiece that have no other seam
+// (entry of the per-piece status methods, the numComplete increment and load, the committed store).
+// It exists only in builds with the tag `verif` (verification harnesses park writer goroutines there).
+var VerifPoint func(point string)
+
+func verifPoint(point string) {
+	if f := VerifPoint; f != nil {
+		f(point)
+	}
+}
